@@ -3,6 +3,7 @@ import GeffProps.C13
 import GeffProps.C12
 import GeffProofs.LinkGraph
 import GeffProofs.LinkGraphCtc
+import GeffProofs.LinkGraphTracklet
 /-! # C15 ← C13, C12 — the CTC converter's output passes the validators' models
 
 Link theorems only (no new model, no new specification).  They connect
@@ -23,6 +24,11 @@ What is discharged:
   `C15_graph_valid`), so `C13_iff` applies with no hypothesis left.
 * `C15_graph_valid` proves "the right-hand side of graph validity (C12)" as a bare conjunction;
   `C15_output_passes_graph_validation` feeds it to `C12_graph_iff`.
+
+* link (10), C13 ↔ C14: every tracklet of a valid tracklet labelling lies inside one weakly connected
+  component (`Geff.Link.tracklet_within_component`, `GeffProofs/LinkGraphTracklet.lean`), hence tracklets
+  refine lineages (`C13_C14_tracklets_refine_lineages`); on the converter's output
+  `C15_tracklets_within_components`, and without any consistency hypothesis `C15_same_label_connected`.
 
 The arrays handed to the validators are the ones the converter writes: ids `out.nodeIds`, the
 `tracklet_id` column `out.tracklet` (no missing mask: `nodesWithId … none`), edges `out.edges`;
@@ -163,6 +169,65 @@ theorem C15_output_validates (ds : Dataset) (hwf : ds.WF) (hs : ds.Sorted)
   refine ⟨?_, C15_output_passes_tracklet_validation ds hwf hs hc hsib out h⟩
   rw [← GeffProps.C12.validateData_graph_only true _ _ ⟨false, false, none⟩ (fun _ => .ok)]
   exact C15_output_passes_graph_validation ds hwf hs hc out h true _ _
+
+/-! ## Link (10), C13 ↔ C14 on the converter's output: tracklets lie inside weakly connected components -/
+
+/-- the validated (id, tracklet id) pairs are the positions of the `tracklet_id` column -/
+theorem mem_output_pairs (ds : Dataset) (hwf : ds.WF) (out : Out) (h : fromCtc ds = .ok out) (a : Nat) (l : Int) :
+    (a, l) ∈ out.nodeIds.zip out.tracklet ↔ out.tracklet[a]? = some l := by
+  rw [output_lengths ds hwf out h]; exact mem_zip_range _ _ rfl a l
+
+/-- **each CTC tracklet lies inside one weakly connected component** of the converter's output —
+obtained from the tracklet definition alone (`Geff.Link.tracklet_within_component`: every valid
+tracklet labelling refines the partition into components), for consistent datasets without a
+single-child parent. -/
+theorem C15_tracklets_within_components (ds : Dataset) (hwf : ds.WF) (hs : ds.Sorted) (hc : Consistent ds)
+    (hsib : ∀ r ∈ prows ds, ∃ r' ∈ prows ds, r'.P = r.P ∧ r'.L ≠ r.L)
+    (out : Out) (h : fromCtc ds = .ok out) (a b : Nat) (l : Int)
+    (ha : out.tracklet[a]? = some l) (hb : out.tracklet[b]? = some l) : Geff.Graph.Conn out.edges a b :=
+  tracklet_within_component _ _
+    ((C15_tracklet_definitions_agree ds hwf out h).1 (C15_tracklets_of_no_single_child ds hwf hs hc hsib out h))
+    a b l ((mem_output_pairs ds hwf out h a l).2 ha) ((mem_output_pairs ds hwf out h b l).2 hb)
+
+/-- the same holds for EVERY converted dataset with ascending labels (single-child continuations and
+inconsistent tables included): the nodes of one CTC label are joined by the consecutive-appearance
+edges.  So the labelling never *merges* components; what `C15:single-child-continuation` breaks is
+maximality only. -/
+theorem C15_same_label_connected (ds : Dataset) (hwf : ds.WF) (hs : ds.Sorted)
+    (out : Out) (h : fromCtc ds = .ok out) (a b : Nat) (l : Int)
+    (ha : out.tracklet[a]? = some l) (hb : out.tracklet[b]? = some l) : Geff.Graph.Conn out.edges a b := by
+  have hO := objs_pairwise ds.frames 0 hs
+  have hspec := C15_edges ds hwf hs out h
+  rw [nodeAt_eq ds hwf out h] at hspec
+  obtain ⟨ce, f, hes, _, hce, _⟩ := hspec
+  obtain ⟨_, _, htr, _⟩ := C15_nodes ds hwf out h
+  rw [htr] at ha hb
+  obtain ⟨ta, hat⟩ := at_of_label ha
+  obtain ⟨tb, hbt⟩ := at_of_label hb
+  refine Relation.ReflTransGen.mono ?_ a b (at_chain hO a b ta tb l hat hbt)
+  intro x y hxy
+  rcases hxy with hxy | hxy
+  · exact Or.inl (by rw [hes]; exact List.mem_append_left _ ((hce x y).2 hxy))
+  · exact Or.inr (by rw [hes]; exact List.mem_append_left _ ((hce y x).2 hxy))
+
+/-- **link (10), generic, C13 ↔ C14: tracklets refine lineages.**  For every digraph and every two
+labellings with unique node ids: if C13's model of `validate_tracklets` accepts the tracklet ids and
+C14's model of `validate_lineages` accepts the lineage ids, then nodes sharing a tracklet id share
+their lineage id (each tracklet lies inside one weakly connected component, each component is one
+lineage).  Stated here so that it is built and audited with this file; proof in
+`GeffProofs/LinkGraphTracklet.lean`. -/
+theorem C13_C14_tracklets_refine_lineages {α L L' : Type} [DecidableEq α] [DecidableEq L] [DecidableEq L']
+    (nt : List (α × L)) (nlin : List (α × L')) (es : List (α × α))
+    (hnt : (nt.map (·.1)).Nodup) (hnl : (nlin.map (·.1)).Nodup)
+    (ht : validateTracklets nt es = true) (hl : Geff.Lineage.validateLineages nlin es = true)
+    (a b : α) (t : L) (la lb : L') (ha : (a, t) ∈ nt) (hb : (b, t) ∈ nt)
+    (hla : (a, la) ∈ nlin) (hlb : (b, lb) ∈ nlin) : la = lb :=
+  accepted_tracklets_refine_accepted_lineages nt nlin es hnt hnl ht hl a b t la lb ha hb hla hlb
+
+-- non-vacuity: 1→2→3, 3→4, 3→5 and an isolated 6: tracklets {1,2,3},{4},{5},{6}; lineages {1..5},{6}
+example : validateTracklets [((1:Nat),(10:Nat)),(2,10),(3,10),(4,20),(5,30),(6,40)] [(1,2),(2,3),(3,4),(3,5)] = true ∧
+    Geff.Lineage.validateLineages [((1:Nat),(7:Nat)),(2,7),(3,7),(4,7),(5,7),(6,8)] [(1,2),(2,3),(3,4),(3,5)] = true := by
+  decide
 
 /-! ## Non-vacuity: the dataset `division` of `GeffProps/C15.lean` (a division with a gap) meets every
 hypothesis (shown there: `WF`, `Sorted`, `Consistent`, no single child, converts) and the validators'
